@@ -9,10 +9,10 @@ use serde_json::{json, Value};
 use std::io::{BufRead, Read};
 use vph::refdec;
 
-pub const RULE: &str = "frame parameter menu of 12 (rate: fixed code / kHz / Hz / daHz classes; channels 1,2,3,8; depth 8,12,16,20,24,32; length 1,16,17,40): (A) ALL sequences of 1..3 frames written by FlacStreamWriter — each frame must decode from its own bytes alone in the independent decoder's subset mode and FlacStreamReader must return every frame's samples and parameters exactly, for the unsegmented source, every single cut point and 1-byte buffers; all non-subset rate/depth classes must be refused at write; (B) 6 three-frame sequences × ALL placements of ≤2 (thorough ≤3) garbage strings from {00, FF, FF FF, FF F8, FF F9, FF F8 + CRC-8-valid fake header, the first 5 / 9 bytes of a real frame, 37 sync-free bytes} in the 4 gaps × every single cut point of the source (thorough: + every pair of cuts for ≤1 garbage string) and 1-byte buffers: frames returned Ok must be a subsequence of the written frames in order with exact samples/parameters; when no inserted string contains FF F8/FF F9 every frame must be returned and no error may precede the final end of data";
+pub const RULE: &str = "frame parameter menu of 12 (rate: fixed code / kHz / Hz / daHz classes; channels 1,2,3,8; depth 8,12,16,20,24,32; length 1,16,17,40): (A) ALL sequences of 1..3 frames written by FlacStreamWriter — each frame must decode from its own bytes alone in the independent decoder's subset mode and FlacStreamReader must return every frame's samples and parameters exactly, for the unsegmented source, every single cut point and 1-byte buffers; all non-subset rate/depth classes must be refused at write; (B) 6 three-frame sequences × ALL placements of ≤3 garbage strings from {00, FF, FF FF, FF F8, FF F9, FF F8 + CRC-8-valid fake header, the first 5 / 9 bytes of a real frame, 37 sync-free bytes} in the 4 gaps × every single cut point of the source (thorough: + every pair of cuts for ≤1 garbage string) and 1-byte buffers: frames returned Ok must be a subsequence of the written frames in order with exact samples/parameters; when no inserted string contains FF F8/FF F9 every frame must be returned and no error may precede the final end of data";
 pub const ASSUMPTIONS: &[&str] = &["garbage is drawn from a 9-string alphabet; frames from a 12-entry parameter menu with position-identifying PCM"];
 pub fn bounds(quick: bool) -> Value {
-    json!({"clean_sequences": "all of length 1..3 over 12 frame kinds", "garbage_strings_per_stream": if quick { 2 } else { 3 }, "cuts": if quick { "every single cut, 1-byte buffers" } else { "every single cut, every pair of cuts (≤1 garbage string), 1-byte buffers" }})
+    json!({"clean_sequences": "all of length 1..3 over 12 frame kinds", "garbage_strings_per_stream": 3, "cuts": if quick { "every single cut (≤2 garbage strings), every pair of cuts (≤1 garbage string, first sequence), 1-byte buffers" } else { "every single cut, every pair of cuts (≤2 garbage strings), 1-byte buffers" }})
 }
 
 /// BufRead over a fixed byte string whose fill_buf never crosses a cut point (and serves ≤ chunk bytes if chunk>0)
@@ -268,7 +268,7 @@ pub fn run(ctx: &Ctx, acc: &mut Acc) {
             for b in a..slots.len() {
                 if slots[b].0 >= slots[a].0 {
                     placements.push(vec![slots[a], slots[b]]);
-                    if ctx.thorough() {
+                    {
                         for c in b..slots.len() {
                             placements.push(vec![slots[a], slots[b], slots[c]]);
                         }
@@ -302,7 +302,7 @@ pub fn run(ctx: &Ctx, acc: &mut Acc) {
             if pl.len() <= 2 {
                 for c in 1..stream.len() {
                     check_stream(acc, &stream, &want, clean, &[c], 0, &origin);
-                    if ctx.thorough() && pl.len() <= 1 {
+                    if ctx.thorough() && pl.len() <= 2 || pl.len() <= 1 && seq == [0, 1, 2] {
                         for d in c + 1..stream.len() {
                             check_stream(acc, &stream, &want, clean, &[c, d], 0, &origin);
                         }
